@@ -26,7 +26,9 @@ CLAIMED = {
                 text="All conversion entry points run on limit-focused probes in an ASan/UBSan build with live asserts; saturation and "
                      "last-representable exactness are compared with 128-bit arithmetic.", note="UBSan detects only executed UB", ref="3/C10"),
     "C11": dict(cat="exploration", tech="chain/point-query monitor against the oracle's list of real changes",
-                text="next/prev chains are compared with each other, with the oracle's change list and with point queries at T, T+-1.",
+                text="next/prev chains are compared with each other, with the oracle's change list and with point queries at T, T+-1, "
+                     "also through the templated overloads with millisecond, nanosecond and minute time points (floor/ceil expectation); "
+                     "old-style files whose type 0 is a daylight type in use are checked for the library's own consistency only.",
                 note="how far rule-generated transitions are enumerated is deliberately not demanded", ref="3/C11"),
     "C04": dict(cat="exploration", tech="reference-model monitor (128-bit calendar oracle) + UBSan as the overflow detector; 146097-day cycle enumerated",
                 text="All six civil types are constructed from vetted tuples (exhaustive cycle bases x overlay panel, random int64 mixtures) "
@@ -63,7 +65,7 @@ CLAIMED = {
                 text="Acceptance and the returned instant are compared with a reference parser written from the documentation, on inputs "
                      "built from chosen fields, boundary values and single-character edits; zone-read times resolved through O-ZONE.",
                 note="formats using strptime-delegated specifiers are outside the model (sanitizer coverage only)", ref="3/C09"),
-    "C18": dict(cat="exploration", tech="exact rational floor oracle (128-bit) over a panel of 13 duration types under UBSan",
+    "C18": dict(cat="exploration", tech="exact rational floor oracle (128-bit) over a panel of 16 duration types under UBSan",
                 text="lookup/convert/format/parse templates are instantiated for each duration type and compared with exact floor "
                      "arithmetic at every remainder class near the epoch and at each representation's limits.",
                 note="values whose whole-second count does not fit time_point<seconds> are documented UB and not passed", ref="3/C18"),
@@ -73,7 +75,7 @@ CLAIMED = {
                      "with the single-threaded one and zone identity across threads is checked; all orders of the loader's critical "
                      "sections for 2-3 (thorough 4) threads are enumerated by parking threads at the load hooks.",
                 note="schedule enumeration at hook granularity; TSan sees only interleavings that occurred", ref="3/C13"),
-    "C20": dict(cat="exploration", tech="offline checker over the factory's own event log (once per name, serial, on the loading thread, never for internal names) from enumerated schedules and stress runs",
+    "C20": dict(cat="exploration", tech="offline checker over the factory's own event log (once per name, serial, on the loading thread, never for internal names) from enumerated schedules, planned overtake schedules (a parked waiter overtaken by N first-time loads) and stress runs",
                 text="The replaced zone_info_source_factory logs enter/exit with thread id and a global sequence number; the log of every "
                      "enumerated schedule (threads held inside the factory in every order) and of every stress round is checked against "
                      "the documented contract.", note="sequence numbers come from one relaxed atomic counter; overlap = an enter between another invocation's enter and exit", ref="3/C20"),
@@ -81,12 +83,14 @@ CLAIMED = {
                 text="Every table index reachable by one preceding query is set in both directions and probed with a 24-query panel, "
                      "answers compared with a second copy of the same bytes under another cache key; the hint hook proves which states "
                      "and hint hits were exercised; long random histories are compared with independently driven and freshly loaded "
-                     "copies; the cache is observed through a counting zone-data source.",
+                     "copies; the cache is observed through a counting zone-data source; in-process histories that change TZDIR/TZ/LOCALTIME "
+                     "between first-time loads are predicted from the environment of that moment plus the name cache.",
                 note="hidden state assumed to be the two hint indices + the name cache (what the anchors name)", ref="3/C14"),
     "C19": dict(cat="exploration", tech="environment-matrix monitor: child processes per environment vs a Python model of the resolution rules; strace fault injection in the thorough tier",
-                text="260 environments (TZDIR x TZ x LOCALTIME) x 30 names + local_time_zone() + default construction are run in child "
+                text="260 environments (TZDIR x TZ x LOCALTIME) x 34 names + local_time_zone() + default construction are run in child "
                      "processes with the library's default file source and compared with a model that reads the files itself; data identity "
-                     "via digest equality with the absolute-path load.", note="Linux/glibc branch only", ref="3/C19"),
+                     "via digest equality with the absolute-path load; every proper prefix of 7 well-formed files must fail to load; in-process "
+                     "environment-change histories.", note="Linux/glibc branch only", ref="3/C19"),
 }
 
 PENDING = {}
